@@ -49,9 +49,6 @@ func c02Alphabet(cap uint32, full bool) func(w *world) []cev {
 			// a claim whose version vector is partial or missing is not "the same" as what the node advertises
 			out = append(out, cev{K: "alive", Node: "o", Inc: inc, Addr: "O", Meta: "om0", Vsn: "short", Carrier: "compound"})
 			out = append(out, cev{K: "alive", Node: "o", Inc: inc, Addr: "O", Meta: "om0", Vsn: "none", Carrier: "pkt"})
-			if full {
-				out = append(out, cev{K: "pp", Node: "o", Inc: inc, State: "alive", Addr: "O", Meta: "om0", Vsn: "none"})
-			}
 		}
 		if own < cap {
 			out = append(out, cev{K: "update", Meta: "om0"}, cev{K: "update", Meta: "om1"})
